@@ -110,6 +110,7 @@ Theorem C11_call_bound : forall ρ f args kwargs s w s1,
   exists fr ws ks all ids id,
     assoc f ρ = Some (BFun fr) /\ Forall2 (bound_to ρ) args ws /\ Forall2 (bound_to ρ) (map snd kwargs) ks
     /\ call_args fr ws (map fst kwargs) ks all
+    /\ List.length all = List.length (fn_params fr)
     /\ Forall2 has_id all ids /\ wid w = Some id
     /\ recorded s1 id (ACall ids (fn_id fr)) /\ fun_rec s1 f fr.
 Proof. exact (call_site GenScalar.G). Qed.
